@@ -273,3 +273,23 @@ func StuckFrame(dump string) string {
 	}
 	return "?"
 }
+
+// Render is the compact form of a request/response pair stored as an evidence sample.
+func Render(q Req, origin string, ops []string, r Resp) map[string]any {
+	n := len(q.Input)
+	if n > 48 {
+		n = 48
+	}
+	m := map[string]any{"entry": q.Entry, "origin": origin, "input_len": len(q.Input), "input_prefix_hex": fmt.Sprintf("%x", q.Input[:n]),
+		"err": r.Err, "requested": r.Requested, "read_calls": r.ReadCalls}
+	if q.Reader.Mode != "" {
+		m["reader"] = q.Reader
+	}
+	if len(ops) > 0 {
+		m["ops"] = ops
+	}
+	if q.Log != "" {
+		m["log"] = q.Log
+	}
+	return m
+}
